@@ -627,10 +627,20 @@ def _vfi(path, k):
     return ValidationPath(ValidationPath(ValidationPath(None, ':'.join(path)), ':'.join(path)), k)
 
 
+def none_ok(info):
+    """Is None a value of the declared type?  (from the spec string only; same rule as NoneOK in ConfigTypes.tla)"""
+    if info['vc'] in ('color', 'int_from_hex'):
+        return False
+    if info['vc'] == 'enum':
+        return 'none' in (info.get('enum') or [])
+    return True
+
+
 def exec_case(cv, m, path, k, key, shape, ec, rnd):
     """Run one case on the real validator; returns the trace line (dict) or None if the class has no representative."""
     info = key['v']
     line = {'op': 'item', 'it': key['it'], 'vc': info['vc'], 'tok': bool(info['tok']), 'rg': _range_of(info) is not None,
+            'nok': none_ok(info),
             'kv': key['k']['vc'] if key['k'] else 'na', 'sh': shape, 'ec': ec, 'dcl': key['dcl'], 'ir': 'na',
             'o': 'reject', 'ty': '', 'ety': [], 'kty': [], 'n': -1, 'inr': True, 'f': [], 'vm': [], 'rms': [], 'suf': ''}
     try:
@@ -929,6 +939,8 @@ def signature(line):
     if op in ('spec', 'built'):
         return 'C12:spec-mutated'
     if op == 'item':
+        if line['vc'] == 'enum' and not line['nok'] and 'NoneType' in [line['ty']] + list(line['ety']):
+            return 'C12:type:enum-none'
         if line['ir'] == 'nan' or (not line['inr'] and line['ec'] in ('float_nan', 'nan_str')):
             return 'C12:range:nan:%s' % line['vc']
         if not line['inr'] or line['ir'] in ('below', 'above'):
